@@ -125,7 +125,8 @@ def mon_requests(tr, sc):
                 for t in old:
                     waiting.pop(t)
     # the epilogue closed the client: nothing may be left waiting
-    if sc and sc[-1] == "#epilogue" or any(o == "close" for o in sc[-4:]):
+    dead = any(l.startswith(("dead after", "stalled ", "hang ", "readall parked")) for _, ls in tr for l in ls)
+    if (sc and sc[-1] == "#epilogue" or any(o == "close" for o in sc[-4:])) and not dead:
         if pending:
             out.append(("never-returns", "request(s) %s never returned, even after Close" % sorted(pending)))
     return out
